@@ -291,10 +291,7 @@ def run_library(ctx, tag, yaml_path, options, language, write_version, replay):
     env = Env()
     libfmt = None
     for node in rec.nodes.values():
-        f = node.fmtdict
-        while getattr(f, "_Scope__parent", None) is not None and False:
-            pass
-        libfmt = f
+        libfmt = node.fmtdict
         break
     if libfmt is not None:
         env.set_lib(libfmt)
@@ -501,6 +498,12 @@ def oracle_library(ctx, res, replay, stats):
                 ctx.fail("c04:arg-count:%s:%s" % (lib, name),
                          "%s: C takes %d parameters (%s), the bind(C) interface %s has %d dummy arguments (%s)" % (
                              name, len(pr["params"]), pr["text"], it["fname"], len(it["args"]), ", ".join(it["args"])), rp)
+                continue
+            cn = [(cp.get("name") or "").lower() for cp in pr["params"]]
+            if all(cn) and len(set(cn)) == len(cn) and sorted(cn) == sorted(it["args"]) and cn != it["args"]:
+                ctx.fail("c04:arg-order:%s:%s" % (lib, name),
+                         "%s: the C parameters are (%s) but the bind(C) interface lists the same names as (%s)" % (
+                             name, ", ".join(cn), ", ".join(it["args"])), rp)
                 continue
             for k, (cp, an) in enumerate(zip(pr["params"], it["args"])):
                 fd = it["decls"].get(an)
@@ -764,7 +767,7 @@ def extra_decls(r, language, k):
     d.append({"decl": "void %s(%s *arr +cdesc+rank(1), %s *arr2 +intent(out)+cdesc+rank(2))" % (nm("j"), r.choice(["int", "double"]), r.choice(["int", "float"]))})
     if language != "c":
         d.append({"decl": "void %s(const std::string & s, std::string & o +intent(out), std::string * io)" % nm("k")})
-        d.append({"decl": "const std::string %s(void) +deref(allocatable)" % nm("l")})
+        d.append({"decl": "const std::string & %s(void) +deref(allocatable)" % nm("l")})
         d.append({"decl": "void %s(const std::vector<%s> & v, std::vector<int> & o +intent(out), std::vector<double> & io)" % (nm("m"), r.choice(["int", "double", "long"]))})
         d.append({"decl": "std::vector<int> %s(int n)" % nm("n")})
         d.append({"decl": "class C04cls%d" % k, "declarations": [
@@ -772,11 +775,11 @@ def extra_decls(r, language, k):
             {"decl": "int meth(%s a, const std::string & s)" % t()},
             {"decl": "C04cls%d * self2()" % k}, {"decl": "static %s smeth(%s *x +intent(inout))" % (t(), t())},
             {"decl": "void take(C04cls%d & o, const C04cls%d * p)" % (k, k)}]})
-    d.append({"decl": "struct C04pt%d { int a; double b; %s c; };" % (k, r.choice(["long", "float", "short"]))})
     d.append({"decl": "void %s(C04pt%d *p, C04pt%d v)" % (nm("o"), k, k)})
     d.append({"decl": "C04pt%d %s(int i)" % (k, nm("p"))})
     r.shuffle(d)
-    return d
+    # the struct must be declared before its first use
+    return [{"decl": "struct C04pt%d { int a; double b; %s c; };" % (k, r.choice(["long", "float", "short"]))}] + d
 
 
 def gen_libraries(r, n):
@@ -791,7 +794,7 @@ def gen_libraries(r, n):
         base.options["wrap_fortran"] = True
         base.options["wrap_c"] = True
         ex = extra_decls(r, language, i)
-        base.decls = list(base.decls) + ex[: r.randrange(6, len(ex) + 1)]
+        base.decls = list(base.decls) + ex[: r.randrange(7, len(ex) + 1)]
         libs.append(("gen%d-%s%s" % (i, "c" if language == "c" else "cxx", "-cfi" if opts.get("F_CFI") else ""), base))
     return libs
 
